@@ -75,6 +75,8 @@ def run_sequences(ctx, res, prop, seqs, label, strace=False, extra_fds=()):
     def one(ix):
         steps = seqs[ix]
         pres = F.present_paths(steps, ctx.rng)
+        for st_ in steps:
+            pres |= set(st_.get("present", ()))
         return F.run_sequence(ctx, steps, "%s%d" % (label, ix), strace=strace, extra_fds=extra_fds, present=pres)
 
     with ThreadPoolExecutor(max_workers=max(2, C.NCPU // 2)) as ex:
@@ -259,4 +261,21 @@ def captured_builtin_seqs(ctx):
                 unop = set(int(r[2:]) for r in rs if r[1] != "&" and int(r[2:]) >= 30)
                 steps.append(S([F.mk_stage("B", redirs=rs, prints=F.BUILTINS[b][0], builtin=b)], cap=cap, unop=unop))
             seqs.append(steps)
+    return seqs
+
+
+def builtin_truncate_seqs(ctx):
+    """`>` creates or TRUNCATES for builtins too: builtins alone on their line that print NOTHING, or whose LATER target cannot be
+    opened, with PRE-EXISTING NON-EMPTY target files; the final content of every target is compared (the earlier targets of a
+    failing list are truncated / created, `>>` keeps the content, nothing after the failing target is touched)."""
+    shapes = [["1t5"], ["2t5"], ["1a5"], ["1t5", "1t31", "1t6"], ["1t5", "2t33", "1a6"], ["1a5", "1t6", "2t30"],
+              ["1t5", "1t6"], ["2t5", "1t31"], ["1t5", "2&1", "1t32", "1t6"]]
+    seqs = []
+    for b in ("alias zq=2", "cd .", "alias", "alias zz_none"):
+        for cap in (False, True):
+            for rs in shapes:
+                unop = set(int(r[2:]) for r in rs if r[1] != "&" and int(r[2:]) >= 30)
+                step = S([F.mk_stage("B", redirs=rs, prints=F.BUILTINS[b][0], builtin=b)], cap=cap, unop=unop)
+                step["present"] = {5, 6}
+                seqs.append([PRELUDE(), step])
     return seqs
